@@ -1,4 +1,5 @@
 import Pyxv.Proofs.SpellLemmas
+import Pyxv.Proofs.SpellCleanLemmas
 /-! Lemmas about `process_header`: splitting on `::` / `:` and the token list it computes. -/
 namespace Pyxv.Spell
 open Pyxv
@@ -279,5 +280,159 @@ theorem hasDC_join_double (xs : List Str) (h : 2 ≤ xs.length) : hasDC (joinWit
   | x :: y :: rest, _ =>
     have : joinWith [':', ':'] (x :: y :: rest) = x ++ ':' :: ':' :: joinWith [':', ':'] (y :: rest) := by simp [joinWith]
     rw [this]; exact hasDC_mid _ _
+
+end Pyxv.Spell
+
+namespace Pyxv.Spell
+open Pyxv
+
+theorem splitWs_lstrip (x : Str) : splitWs (lstrip x) = splitWs x := by
+  induction x with
+  | nil => rfl
+  | cons c r ih =>
+    rw [lstrip_cons]
+    by_cases hc : sp c = true
+    · simp only [hc, if_true]; rw [ih, splitWs_space _ _ hc]
+    · simp [hc]
+
+theorem splitWs_all_ws (x : Str) (h : ∀ c ∈ x, sp c = true) : splitWs x = [] := by
+  induction x with
+  | nil => rfl
+  | cons c r ih => rw [splitWs_space _ _ (h c (by simp))]; exact ih (fun y hy => h y (by simp [hy]))
+
+theorem rstrip_eq_nil_all_ws (x : Str) (h : rstrip x = []) : ∀ c ∈ x, sp c = true := by
+  induction x with
+  | nil => simp
+  | cons c r ih =>
+    rw [rstrip_cons] at h
+    by_cases h0 : rstrip r = [] ∧ sp c = true
+    · intro y hy
+      simp only [List.mem_cons] at hy
+      rcases hy with rfl | hy
+      · exact h0.2
+      · exact ih h0.1 y hy
+    · simp [h0] at h
+
+theorem splitWs_rstrip (x : Str) : splitWs (rstrip x) = splitWs x := by
+  induction x with
+  | nil => rfl
+  | cons c r ih =>
+    rw [rstrip_cons]
+    by_cases h0 : rstrip r = [] ∧ sp c = true
+    · simp only [h0, and_self, if_true]
+      rw [splitWs_space _ _ h0.2, splitWs_all_ws r (rstrip_eq_nil_all_ws r h0.1)]; rfl
+    · simp only [h0, if_false]
+      by_cases hc : sp c = true
+      · rw [splitWs_space _ _ hc, splitWs_space _ _ hc, ih]
+      · have hc' : pyIsSpace c = false := by simpa using hc
+        by_cases hr : rstrip r = []
+        · have hall := rstrip_eq_nil_all_ws r hr
+          rw [hr, splitWs_single c hc']
+          cases r with
+          | nil => exact (splitWs_single c hc').symm
+          | cons d ds =>
+            have hd : pyIsSpace d = true := hall d (by simp)
+            rw [splitWs_ns_sp c d ds hc' hd, splitWs_all_ws (d :: ds) hall]
+        · cases r with
+          | nil => exact absurd rfl hr
+          | cons d ds =>
+            have hh := rstrip_head (d :: ds) hr
+            obtain ⟨d', ds', hrs⟩ : ∃ d' ds', rstrip (d :: ds) = d' :: ds' := by
+              cases h : rstrip (d :: ds) with
+              | nil => exact absurd h hr
+              | cons a b => exact ⟨a, b, rfl⟩
+            rw [hrs] at hh
+            simp only [List.head?_cons, Option.some.injEq] at hh
+            subst hh
+            rw [hrs] at ih ⊢
+            by_cases hd : pyIsSpace d' = true
+            · rw [splitWs_ns_sp c d' ds' hc' hd, splitWs_ns_sp c d' ds hc' hd, ih]
+            · have hd' : pyIsSpace d' = false := by simpa using hd
+              rw [splitWs_ns_ns c d' ds' hc' hd', splitWs_ns_ns c d' ds hc' hd', ih]
+
+theorem toSnake_strip (x : Str) : toSnake (strip x) = toSnake x := by
+  unfold toSnake strip
+  rw [splitWs_rstrip, splitWs_lstrip]
+
+/-- `s` is an expected column or an alias key of the sheet -/
+def known (T : HeaderTables) (s : Str) : Bool := T.columns.contains s || (lookup s T.aliases).isSome
+
+/-- decidable sanity of a sheet's header tables: a non-alias column whose snake-case form is known is
+    already in snake case; `jr` is not a known header; no alias has an empty value -/
+def tableSane (T : HeaderTables) : Bool :=
+  (T.columns.all fun c => (lookup c T.aliases).isSome || !(known T (toSnake c)) || toSnake c == c) &&
+  !(known T ['j', 'r']) &&
+  (T.aliases.all fun p => !(p.2.isEmpty || p.2 == [[]]))
+
+/-- the token tuple of a delimiter-free header, as a function of its snake-case normal form -/
+def canonTokens (T : HeaderTables) (s : Str) : List Str :=
+  if T.columns.contains s && (lookup s T.aliases).isNone then [s]
+  else match lookup s T.aliases with
+    | some d => d
+    | none => [s]
+
+theorem lookup_mem {β} (k : Str) (l : List (Str × β)) (v : β) (h : lookup k l = some v) : (k, v) ∈ l := by
+  induction l with
+  | nil => simp [lookup] at h
+  | cons p rest ih =>
+    obtain ⟨k', v'⟩ := p
+    simp only [lookup] at h
+    by_cases hk : k = k'
+    · simp only [hk, if_true, Option.some.injEq] at h; subst h; subst hk; simp
+    · simp only [hk, if_false] at h; exact List.mem_cons_of_mem _ (ih h)
+
+/-- **a delimiter-free header is read through its snake-case normal form only** -/
+theorem processHeader_nf (T : HeaderTables) (hT : tableSane T = true) (d : Bool) (x : Str)
+    (hx : noColon x) (hk : known T (toSnake x) = true) :
+    (processHeader T d x).map (·.tokens) = .ok (canonTokens T (toSnake x)) := by
+  simp only [tableSane, Bool.and_eq_true] at hT
+  obtain ⟨⟨hcol, hjr⟩, hal⟩ := hT
+  have hjr' : known T ['j', 'r'] = false := by simpa using hjr
+  unfold processHeader
+  by_cases b1 : (T.columns.contains x && (lookup x T.aliases).isNone) = true
+  · simp only [b1, if_true]
+    simp only [Bool.and_eq_true] at b1
+    have hmem : x ∈ T.columns := by simpa using b1.1
+    have := List.all_eq_true.mp hcol x hmem
+    have hnone : (lookup x T.aliases).isSome = false := by
+      cases h : lookup x T.aliases <;> simp_all
+    simp only [hnone, hk, Bool.not_true, Bool.false_or, beq_iff_eq] at this
+    simp only [Except.map, canonTokens, this, b1.1, b1.2, Bool.and_self, if_true]
+  · simp only [b1, Bool.false_eq_true, if_false]
+    by_cases b2 : (T.columns.contains (toSnake x) && (lookup (toSnake x) T.aliases).isNone) = true
+    · simp only [b2, if_true, Except.map, canonTokens]
+    · simp only [b2, Bool.false_eq_true, if_false]
+      have hs : strip x ≠ ['j', 'r'] := by
+        intro e
+        have : toSnake x = ['j', 'r'] := by rw [← toSnake_strip, e]; decide
+        rw [this, hjr'] at hk; cases hk
+      have htoks : (if (d || hasDC x) = true then (Except.ok ((splitDC x).map strip) : Except HdrErr (List Str))
+          else jrJoin ((splitOnChar ':' x).map strip)) = .ok [strip x] := by
+        rw [hasDC_noColon x hx, splitDC_noColon x hx, splitOnChar_noColon x hx]
+        cases d with
+        | true => rfl
+        | false =>
+          simp only [Bool.or_self, Bool.false_eq_true, if_false, List.map_cons, List.map_nil]
+          exact jrJoin_none [strip x] (by simpa using Ne.symm hs)
+      rw [htoks]
+      simp only [toSnake_strip]
+      cases hl : lookup (toSnake x) T.aliases with
+      | some dd =>
+        have hmem := lookup_mem _ _ _ hl
+        have hf := List.all_eq_true.mp hal _ hmem
+        have hf' : (dd.isEmpty || dd == [[]]) = false := by simpa using hf
+        have hne : ¬(dd = [] ∨ dd = [[]]) := by
+          simp only [Bool.or_eq_false_iff, beq_eq_false_iff_ne] at hf'
+          rintro (h | h)
+          · subst h; simp at hf'
+          · exact hf'.2 h
+        have hb : (T.columns.contains (toSnake x) && (lookup (toSnake x) T.aliases).isNone) = false := by
+          simp [hl]
+        simp [Except.map, canonTokens, hl, hne]
+      | none =>
+        exfalso
+        simp only [known, hl, Option.isSome_none, Bool.or_false] at hk
+        simp [hl] at b2
+        exact b2 (by simpa using hk)
 
 end Pyxv.Spell
